@@ -12,6 +12,11 @@ package conf
 //   order name=<hex> base=<hex> env=<hex> want=<hex>
 //       real conf.Load (file, environment, Validate) on <base> with <name>=<env> vs. on <want>: the variable
 //       overrides the file value. answer: eq | diff <what>
+//   list name=<hex> n=<items> mode=<a|b|c> full=<0|1> base=<hex> file=<hex> env=<k:v,...>
+//       a struct-list parameter of the real Conf with 11-14 items: (a) all items through variables, (b) the first k
+//       in the file and the rest through variables, (c) variables overriding single fields of items at index >= 10
+//       of a file list; compared with the same values written in <file> (front half of Load; full=1: the real
+//       conf.Load incl. Validate). answer: eq | botherr | diff <what>
 //   leaf name=<hex> path=<seg/seg/..> base=<hex> file=<hex> env=<hex>
 //       real Conf: (A) front half of Load on <file> (= base with the parameter written in YAML), no environment;
 //       (B) front half of Load on <base> with <name>=<env>. answer: eq | botherr | diff <what>
@@ -837,10 +842,202 @@ var verifC09Order = [][4]string{
 	{"RTSP_READTIMEOUT", "readTimeout: 5s", "7s", "readTimeout: 7s"},
 }
 
+// ---------- long struct lists of the real configuration ----------
+
+type verifC09ListParam struct {
+	path []any // path of the list itself
+	name string
+	elem reflect.Type
+}
+
+func verifC09ListWalk(path []any, name string, t reflect.Type, out *[]verifC09ListParam) {
+	for t.Kind() == reflect.Pointer {
+		t = t.Elem()
+	}
+	cp := func(x any) []any { return append(append([]any(nil), path...), x) }
+	if reflect.PointerTo(t).Implements(verifC09UnmIface) && t != reflect.TypeOf(OptionalPath{}) {
+		return
+	}
+	switch t.Kind() {
+	case reflect.Struct:
+		if t == reflect.TypeOf(OptionalPath{}) {
+			t = reflect.TypeOf(Path{})
+		}
+		for i := 0; i < t.NumField(); i++ {
+			tag := strings.Split(t.Field(i).Tag.Get("json"), ",")[0]
+			if tag == "-" || tag == "" {
+				continue
+			}
+			verifC09ListWalk(cp(tag), name+"_"+strings.ToUpper(tag), t.Field(i).Type, out)
+		}
+	case reflect.Slice:
+		if t.Elem().Kind() == reflect.Struct && !reflect.PointerTo(t.Elem()).Implements(verifC09UnmIface) {
+			*out = append(*out, verifC09ListParam{path, name, t.Elem()})
+			// lists inside the first item (authInternalUsers[0].permissions)
+			verifC09ListWalk(cp(0), name+"_0", t.Elem(), out)
+		}
+	case reflect.Map:
+		verifC09ListWalk(cp("cam1"), name+"_CAM1", t.Elem(), out)
+	}
+}
+
+var verifC09ListsCache []verifC09ListParam
+
+func verifC09Lists() []verifC09ListParam {
+	if verifC09ListsCache == nil {
+		verifC09ListWalk(nil, "MTX", reflect.TypeOf(Conf{}), &verifC09ListsCache)
+	}
+	return verifC09ListsCache
+}
+
+// value number k of item i of a list: the same value as YAML and as variable text, per field of the item type
+func verifC09ItemField(elem reflect.Type, f reflect.StructField, i, k int) (verifC09Enc, bool) {
+	tag := strings.Split(f.Tag.Get("json"), ",")[0]
+	ft := f.Type
+	if elem == reflect.TypeOf(AlwaysAvailableTrack{}) {
+		switch tag {
+		case "codec":
+			return verifC09Enc{"MPEG4Audio", "MPEG4Audio"}, true
+		case "sampleRate":
+			return verifC09Enc{22050 + 10*i + k, strconv.Itoa(22050 + 10*i + k)}, true
+		case "channelCount":
+			return verifC09Enc{1 + k, strconv.Itoa(1 + k)}, true
+		}
+		return verifC09Enc{}, false
+	}
+	if ft.Kind() == reflect.Slice && ft.Elem().Kind() == reflect.Struct {
+		return verifC09Enc{}, false
+	}
+	if ft.Kind() == reflect.String {
+		txt := fmt.Sprintf("v%dk%d", i, k)
+		if tag == "url" {
+			txt = fmt.Sprintf("stun:h%d-%d:3478", i, k)
+		}
+		if ft == reflect.TypeOf("") {
+			return verifC09Enc{txt, txt}, true
+		}
+		if reflect.PointerTo(ft).Implements(verifC09UnmIface) {
+			b, _ := json.Marshal(txt)
+			if reflect.New(ft).Interface().(env.Unmarshaler).UnmarshalEnv("X", txt) == nil &&
+				jsonwrapper.Unmarshal(b, reflect.New(ft).Interface()) == nil {
+				return verifC09Enc{txt, txt}, true
+			}
+		}
+	}
+	encs := verifC09Encodings(ft)
+	if len(encs) == 0 {
+		return verifC09Enc{}, false
+	}
+	return encs[(i+k)%len(encs)], true
+}
+
+func verifC09ListOp(r *verifutil.Rand, lp verifC09ListParam, n int, mode string) string {
+	var base any = map[string]any{}
+	// enclosing lists are spelled out in the file (see verifC09LeafOp)
+	for i, seg := range lp.path {
+		if idx, ok := seg.(int); ok {
+			for j := 0; j <= idx; j++ {
+				base = verifC09Set(base, append(append([]any{}, lp.path[:i]...), j), map[string]any{})
+			}
+		}
+	}
+	item := func(i, k int) (map[string]any, []verifC09KV) {
+		m := map[string]any{}
+		var kvs []verifC09KV
+		for fi := 0; fi < lp.elem.NumField(); fi++ {
+			f := lp.elem.Field(fi)
+			tag := strings.Split(f.Tag.Get("json"), ",")[0]
+			if tag == "-" || tag == "" {
+				continue
+			}
+			if e, ok := verifC09ItemField(lp.elem, f, i, k); ok {
+				m[tag] = e.yaml
+				kvs = append(kvs, verifC09KV{lp.name + "_" + strconv.Itoa(i) + "_" + strings.ToUpper(tag), e.env})
+			}
+		}
+		return m, kvs
+	}
+	inFile := 0 // items written in the base file
+	switch mode {
+	case "b":
+		inFile = []int{1, 9, 10, n - 1, 1 + r.Intn(n-1)}[r.Intn(5)]
+	case "c":
+		inFile = n
+	}
+	baseItems := []any{}
+	fileItems := []any{}
+	var kvs []verifC09KV
+	for i := 0; i < n; i++ {
+		m0, kv0 := item(i, 0)
+		switch {
+		case i < inFile && mode == "c":
+			baseItems = append(baseItems, m0)
+			if i >= 10 && (i == n-1 || r.Bool()) && len(kv0) > 0 {
+				// override one field of this item
+				m1, kv1 := item(i, 1)
+				j := r.Intn(len(kv1))
+				tag := ""
+				for t := range m1 {
+					if lp.name+"_"+strconv.Itoa(i)+"_"+strings.ToUpper(t) == kv1[j].k {
+						tag = t
+					}
+				}
+				mm := verifC09Clone(m0).(map[string]any)
+				mm[tag] = m1[tag]
+				fileItems = append(fileItems, mm)
+				kvs = append(kvs, kv1[j])
+			} else {
+				fileItems = append(fileItems, m0)
+			}
+		case i < inFile:
+			baseItems = append(baseItems, m0)
+			fileItems = append(fileItems, m0)
+		default:
+			fileItems = append(fileItems, m0)
+			kvs = append(kvs, kv0...)
+		}
+	}
+	file := verifC09Set(verifC09Clone(base), lp.path, fileItems)
+	// mode a: the file either gives the empty list or (when the default is empty anyway) does not mention it
+	if inFile > 0 || mode != "a" || lp.name == "MTX_AUTHINTERNALUSERS" || r.Bool() {
+		base = verifC09Set(base, lp.path, baseItems)
+	}
+	full := 0
+	switch lp.name {
+	case "MTX_AUTHHTTPEXCLUDE", "MTX_AUTHJWTEXCLUDE", "MTX_WEBRTCICESERVERS2":
+		full = 1
+	}
+	bb, _ := json.Marshal(base)
+	fb, _ := json.Marshal(file)
+	return fmt.Sprintf("list name=%s n=%d mode=%s full=%d base=%s file=%s env=%s", verifutil.HexS(lp.name), n, mode, full,
+		verifutil.Hex(bb), verifutil.Hex(fb), verifC09FmtEnv(kvs))
+}
+
+func verifC09ExecList(a map[string]string) string {
+	kvs := verifC09ParseEnv(a["env"])
+	load := verifC09Front
+	if a["full"] == "1" {
+		load = verifC09FullLoad
+	}
+	ca, ra := load(verifutil.UnHex(a["file"]), nil)
+	cb, rb := load(verifutil.UnHex(a["base"]), kvs)
+	switch {
+	case ra != "ok" && rb != "ok" && ra == rb:
+		return "both" + ra
+	case ra != "ok" || rb != "ok":
+		return "diff file=" + ra + " env=" + rb
+	case reflect.DeepEqual(ca, cb):
+		return "eq"
+	}
+	return "diff values"
+}
+
 func verifC09Exec(op string) string {
 	f := strings.Fields(op)
 	a := verifC09Args(f[1:])
 	switch f[0] {
+	case "list":
+		return verifC09ExecList(a)
 	case "gen":
 		return verifC09ExecGen(a)
 	case "leaf":
@@ -857,6 +1054,13 @@ func verifC09Gen(r *verifutil.Rand, i int, thorough bool) []string {
 		return []string{fmt.Sprintf("order name=%s base=%s env=%s want=%s", verifutil.HexS(o[0]), verifutil.HexS(o[1]), verifutil.HexS(o[2]), verifutil.HexS(o[3]))}
 	}
 	i -= len(verifC09Order)
+	// every struct-list parameter with 11-14 items, in the three modes
+	lists := verifC09Lists()
+	if i < len(lists)*3 {
+		lp := lists[i/3]
+		return []string{verifC09ListOp(r, lp, 11+(i/3+i)%4, []string{"a", "b", "c"}[i%3])}
+	}
+	i -= len(lists) * 3
 	leaves := verifC09Leaves()
 	// exhaustive over the parameters of the real configuration: every leaf, two encodings, with and without a file value
 	if i < len(leaves)*4 {
@@ -867,6 +1071,9 @@ func verifC09Gen(r *verifutil.Rand, i int, thorough bool) []string {
 			return []string{"leaf name=" + verifutil.HexS(lf.name) + " path=- base=- file=- env=-"}
 		}
 		return []string{op}
+	}
+	if r.Chance(1, 12) {
+		return []string{verifC09ListOp(r, lists[r.Intn(len(lists))], 11+r.Intn(4), r.Pick("a", "b", "c"))}
 	}
 	if r.Chance(1, 5) {
 		lf := leaves[r.Intn(len(leaves))]
